@@ -13,7 +13,7 @@
           no oracle); a NaN matrix on the Go side iff the model divides by zero.
    XPre   Posterior panics iff some listed state is outside [0,m). *)
 From Coq Require Import List Arith Bool ZArith QArith Qcanon Qabs Floats.
-From ADV Require Import Base.Corr C15.Model C15.ModelBuf C15.ModelCH C15.ModelSet C15.Corr.
+From ADV Require Import Base.Corr C15.Model C15.ModelBuf C15.ModelCls C15.ModelCH C15.ModelSet C15.ModelHist C15.Corr.
 Import ListNotations.
 Open Scope nat_scope.
 
@@ -106,10 +106,13 @@ Section SEQ2.
     Nat.eqb (length (gVit s)) n && forallb (fun x => x <? m) (gVit s) &&
     Qle_bool (this best * (1 - vtol)) (this (wt (gVit s))) && Qle_bool (this (wt (gVit s))) (this best) &&
     Qc_eqb (wt vq) best.
+  Definition chk2_cls : bool :=
+    forallb (chk_cls_one m Pi Tr Tf sm e (vecf neg_infinity fPi') (matf neg_infinity fTr') (matf neg_infinity fTf')
+                         (matf neg_infinity (sEmF s)) n) (gCls s).
   Definition seq2_fails : list nat :=
     (if chk2_logpdf then [] else [1]) ++ (if chk2_alpha then [] else [2]) ++ (if chk2_beta then [] else [3]) ++
     (if chk2_bits then [] else [4]) ++ (if chk2_marg then [] else [5]) ++ (if chk2_post then [] else [6]) ++
-    (if chk2_vit then [] else [7]).
+    (if chk2_vit then [] else [7]) ++ (if chk2_cls then [] else [9]).
 End SEQ2.
 
 Definition vtolOracle : Q := 1 # (2 ^ 30).
@@ -207,29 +210,33 @@ Definition hhfails (c : hhcase) : list nat :=
   end.
 
 
-(* ---- round 5: setter histories on generic.Hmm (ModelSet.v) ---- *)
-Inductive jop := JStart (l : list Z) | JFinal (l : list Z) | JParams (pi : list Q) (tr : list (list Q)) | JClone.
-Definition sop_of (o : jop) : @sop Qc :=
+(* ---- round 5 / 6: histories on generic.Hmm: setters (ModelSet.v) and the config round trip
+        ImportConfig(json(ExportConfig())) (ModelHist.v) ---- *)
+Inductive jop := JStart (l : list Z) | JFinal (l : list Z) | JParams (pi : list Q) (tr : list (list Q)) | JClone | JConfig.
+Definition xop_of (o : jop) : @xop Qc :=
   match o with
-  | JStart l => OStart l
-  | JFinal l => OFinal l
-  | JParams pi tr => OParams (qcl pi) (map qcl tr)
-  | JClone => OClone
+  | JStart l => XOld (OStart l)
+  | JFinal l => XOld (OFinal l)
+  | JParams pi tr => XOld (OParams (qcl pi) (map qcl tr))
+  | JClone => XOld OClone
+  | JConfig => XConfig
   end.
 Record hscase := mkHS {
   hsM : nat; hsPiRaw : list Q; hsTrRaw : list (list Q); hsMap : list nat;
   hsOps : list jop;
-  (* after the constructor and after every call: error returned?, exp of Pi, Tr, Tf of the object *)
-  hsSteps : list (bool * list gres * list (list gres) * list (list gres));
+  (* after the constructor and after every call: 0 = nil error / 1 = error returned / 2 = panic (recovered; no call
+     panics at HEAD, so a 2 never matches the model), exp of Pi, Tr, Tf of the object *)
+  hsSteps : list (nat * list gres * list (list gres) * list (list gres));
   hsfPi : list float; hsfTr : list (list float); hsfTf : list (list float);   (* log-values after the last call *)
   hsSeqs : list hseq
 }.
-Definition step_ok (se : @hst Qc * bool) (ob : bool * list gres * list (list gres) * list (list gres)) : bool :=
+Definition step_ok (se : @hst Qc * bool * bool) (ob : nat * list gres * list (list gres) * list (list gres)) : bool :=
   let '(er, gpi, gtr, gtf) := ob in
-  Bool.eqb (snd se) er && list_rel approx (stPi (fst se)) gpi &&
-  list_rel (list_rel approx) (stTr (fst se)) gtr && list_rel (list_rel approx) (stTf (fst se)) gtf.
-Fixpoint steps_fails (k : nat) (ms : list (@hst Qc * bool))
-         (obs : list (bool * list gres * list (list gres) * list (list gres))) : list nat :=
+  let '(st, e, p) := se in
+  Nat.eqb er (if p then 2 else if e then 1 else 0) && list_rel approx (stPi st) gpi &&
+  list_rel (list_rel approx) (stTr st) gtr && list_rel (list_rel approx) (stTf st) gtf.
+Fixpoint steps_fails (k : nat) (ms : list (@hst Qc * bool * bool))
+         (obs : list (nat * list gres * list (list gres) * list (list gres))) : list nat :=
   match ms, obs with
   | [], [] => []
   | se :: ms', ob :: obs' => (if step_ok se ob then [] else [1000 + k]) ++ steps_fails (S k) ms' obs'
@@ -237,12 +244,14 @@ Fixpoint steps_fails (k : nat) (ms : list (@hst Qc * bool))
   end.
 Definition hsfails (c : hscase) : list nat :=
   let m := hsM c in
-  let ops := map sop_of (hsOps c) in
+  let ops := map xop_of (hsOps c) in
   let s0 := init OpsQc (qcl (hsPiRaw c)) (map qcl (hsTrRaw c)) in
-  let sF := run OpsQc m ops s0 in
-  steps_fails 0 ((s0, false) :: trace OpsQc m ops s0) (hsSteps c) ++
-  (* the derived state of the model is the one the history calls for (proved: ProofsSet.run_tf) *)
-  (if list_eqb (list_eqb Qc_eqb) (stTf sF) (tf_of OpsQc (spec_tr ops (stTr s0)) (spec_final m ops None)) then [] else [998]) ++
+  let sF := xrun OpsQc m ops s0 in
+  let cF := cur_run OpsQc m ops (cur_init OpsQc (qcl (hsPiRaw c)) (map qcl (hsTrRaw c))) in
+  steps_fails 0 ((s0, false, false) :: xtrace OpsQc m ops s0) (hsSteps c) ++
+  (* the derived state of the model is the one the current parameters call for (proved: ProofsHist.xrun_all) *)
+  (if list_eqb (list_eqb Qc_eqb) (stTf sF) (tf_of OpsQc (cuTr cF) (cuFinal cF)) &&
+      list_eqb (list_eqb Qc_eqb) (stTr sF) (cuTr cF) && list_eqb Qc_eqb (stPi sF) (cuPi cF) then [] else [998]) ++
   seqs_fails m (stPi sF) (stTr sF) (stTf sF) (hsMap c) (hsfPi c) (hsfTr c) (hsfTf c) 0 (hsSeqs c).
 
 (* ---- Posterior with repeated states on the plain cases of Corr.v ---- *)
